@@ -21,6 +21,7 @@ pub fn families_for(prop: &str) -> Vec<Family> {
             Family { name: "c02_rand", cfg: c02_cfg, run: c02_rand_run },
         ],
         "C12" => vec![Family { name: "c12", cfg: c12_cfg, run: c12_run }],
+        "C09" => vec![Family { name: "c09", cfg: c09_cfg, run: c09_run }],
         "C03" => vec![
             Family { name: "c03_exh", cfg: c03_exh_cfg, run: c03_exh_run },
             Family { name: "c03_rand", cfg: c03_rand_cfg, run: c03_rand_run },
@@ -1059,4 +1060,149 @@ fn c12_run(case: &mut Case, rng: &mut Rng) {
     }
     case.ctl("step");
     case.ctl("mark counted");
+}
+
+// ---------------------------------------------------------------------------------------------
+// C09: UDP routing
+
+fn c09_cfg(rng: &mut Rng) -> CaseCfg {
+    let min = *rng.pick(&[0u64, 0, 1]);
+    CaseCfg {
+        tick_ms: 1,
+        hosts: rng.range(2, 4) as usize,
+        udpcap: *rng.pick(&[1usize, 2, 64, 64, 64]),
+        minlat_ms: min,
+        maxlat_ms: min + *rng.pick(&[0u64, 3, 6]),
+        rng_seed: rng.next(),
+        desc: rng.chance(1, 3),
+        v6: rng.chance(1, 3),
+        ephlo: 50000,
+        ephhi: 50020,
+        ..CaseCfg::default()
+    }
+}
+
+fn c09_run(case: &mut Case, rng: &mut Rng) {
+    let hosts = case.cfg.hosts;
+    let v6 = case.cfg.v6;
+    // slot 0: any:9000 everywhere; slot 1: second socket in one of several bind forms (or none)
+    let mut second: Vec<Option<String>> = Vec::new();
+    for h in 0..hosts {
+        case.ctl(&format!("q h{h} udp_bind s0 any:9000"));
+        let form = match rng.below(5) {
+            0 => None,
+            1 => Some("lo:9001".to_string()),
+            2 => Some("any:0".to_string()),
+            _ => Some("any:9001".to_string()),
+        };
+        if let Some(f) = &form {
+            case.ctl(&format!("q h{h} udp_bind s1 {f}"));
+        }
+        second.push(form);
+    }
+    case.ctl("step");
+    let mut next_id: u32 = 1;
+    let mut alive0 = vec![true; hosts];
+    let rounds = rng.range(10, 50);
+    for _ in 0..rounds {
+        for _ in 0..rng.range(1, 4) {
+            let h = rng.below(hosts as u64) as usize;
+            let peer = (h + 1 + rng.below(hosts as u64 - 1) as usize) % hosts;
+            let slot = if second[h].is_some() && rng.chance(1, 3) { 1 } else { 0 };
+            if slot == 0 && !alive0[h] {
+                continue;
+            }
+            let port = if rng.chance(1, 4) { 9001 } else { 9000 };
+            match rng.below(20) {
+                0..=7 => {
+                    let dst = match rng.below(10) {
+                        0 => format!("lo:{port}"),
+                        1 => format!("h{h}:{port}"),
+                        2 => "x0:9000".to_string(),
+                        3 => format!("h{peer}:9005"),
+                        _ => format!("h{peer}:{port}"),
+                    };
+                    let id = next_id;
+                    next_id += 1;
+                    let mut v = vec![(id >> 8) as u8, id as u8];
+                    for k in 0..rng.below(5) {
+                        v.push((id as u8).wrapping_mul(3).wrapping_add(k as u8));
+                    }
+                    case.ctl(&format!("q h{h} udp_send s{slot} {dst} {}", hex(&v)));
+                }
+                8 | 9 => {
+                    if !v6 {
+                        let id = next_id;
+                        next_id += 1;
+                        case.ctl(&format!("q h{h} udp_send s{slot} bc:{port} {}", hex(&[(id >> 8) as u8, id as u8, 0xBC])));
+                    }
+                }
+                10 | 11 => {
+                    let id = next_id;
+                    next_id += 1;
+                    let g = rng.below(2);
+                    case.ctl(&format!("q h{h} udp_send s{slot} mc{g}:{port} {}", hex(&[(id >> 8) as u8, id as u8, 0x3C])));
+                }
+                12 => case.ctl(&format!("q h{h} udp_bcast s{slot} {}", rng.below(2))),
+                13 => case.ctl(&format!("q h{h} udp_mloop s{slot} {}", rng.below(2))),
+                14 | 15 => {
+                    let g = rng.below(2);
+                    let iface = if rng.chance(1, 6) { "lo" } else { "any" };
+                    case.ctl(&format!("q h{h} udp_join s{slot} mc{g} {iface}"));
+                }
+                16 => {
+                    let g = rng.below(2);
+                    case.ctl(&format!("q h{h} udp_leave s{slot} mc{g} any"));
+                }
+                17 => {
+                    let pport = if rng.chance(1, 3) { 9001 } else { 9000 };
+                    case.ctl(&format!("q h{h} udp_connect s{slot} h{peer}:{pport}"));
+                }
+                18 => {
+                    if slot == 0 && rng.chance(1, 2) {
+                        case.ctl(&format!("q h{h} drop s0"));
+                        alive0[h] = false;
+                    }
+                }
+                _ => {
+                    if !alive0[h] {
+                        case.ctl(&format!("q h{h} udp_bind s0 any:9000"));
+                        alive0[h] = true;
+                    }
+                }
+            }
+        }
+        for h in 0..hosts {
+            for slot in 0..2 {
+                if slot == 0 && !alive0[h] || slot == 1 && second[h].is_none() {
+                    continue;
+                }
+                for _ in 0..rng.below(3) {
+                    let n = *rng.pick(&[0u64, 1, 2, 3, 16]);
+                    let op = *rng.pick(&["udp_tryrecv", "udp_tryrecv", "udp_recv", "udp_readable"]);
+                    if op == "udp_readable" {
+                        case.ctl(&format!("q h{h} udp_readable s{slot}"));
+                    } else {
+                        case.ctl(&format!("q h{h} {op} s{slot} {n}"));
+                    }
+                }
+            }
+        }
+        case.ctl("step");
+    }
+    for _ in 0..(case.cfg.maxlat_ms + 3) {
+        case.ctl("step");
+    }
+    for h in 0..hosts {
+        for slot in 0..2 {
+            if slot == 0 && !alive0[h] || slot == 1 && second[h].is_none() {
+                continue;
+            }
+            for _ in 0..(next_id as usize + 2).min(200) {
+                case.ctl(&format!("q h{h} udp_tryrecv s{slot} 16"));
+            }
+        }
+    }
+    case.ctl("step");
+    case.ctl("mark drained");
 }
